@@ -1112,6 +1112,7 @@ fn scale_run(wl: &str, run: usize, seed: u64) -> Vec<J> {
     let names = |v: &[&str]| -> Vec<String> { v.iter().map(|s| s.to_string()).collect() };
     let mut opt = Opt::default();
     let mut drop_from_layout: Option<String> = None;
+    let mut shuffle_layout = false;
     let mut layout = choose_layout(Lay::Mixed, seed, &mut rng);
     let mut max_rows = 400;
     let mut fault: Option<(usize, Fault)> = None;
@@ -1246,6 +1247,31 @@ fn scale_run(wl: &str, run: usize, seed: u64) -> Vec<J> {
             opt.layouts = LayoutMode::Subset;
             opt.mode = ValMode::InWidth;
             opt.p_zx = 0.1;
+            (header, supplied, prog)
+        }
+        "manyouts" => {
+            // a driver that lists more than 64 outputs, in an order of its own; the header names some that stand late in its answer
+            let n = 66 + variant % 8;
+            let mut supplied: Vec<Sig> = (0..n).map(|i| Sig::output(&format!("O{i}"), 4 + i % 5)).collect();
+            supplied.insert(variant % n, Sig::input("A", 4, Val::N(1)));
+            let mut picks: Vec<usize> = (0..n).collect();
+            picks.shuffle(&mut rng);
+            picks.truncate(8);
+            let mut header = names(&["A"]);
+            for k in &picks {
+                header.push(format!("O{k}"));
+            }
+            let mut prog = vec![];
+            for r in 0..3 {
+                let mut es = vec![Entry::Num((r % 2) as i64)];
+                for (c, _) in picks.iter().enumerate() {
+                    es.push(if (c + r) % 4 == 0 { Entry::X } else { Entry::Num(((c * 3 + r) % 16) as i64) });
+                }
+                prog.push(row(es));
+            }
+            opt.layouts = LayoutMode::Full;
+            opt.mode = ValMode::InWidth;
+            shuffle_layout = true;
             (header, supplied, prog)
         }
         "manyreads" => {
@@ -1453,6 +1479,9 @@ fn scale_run(wl: &str, run: usize, seed: u64) -> Vec<J> {
     let mut spec = policy_for(&test, &opt, seed, &mut rng, 6);
     if fam == "emptylayout" || fam == "emptyfault" {
         spec.layout.clear();
+    }
+    if shuffle_layout {
+        spec.layout.shuffle(&mut rng);
     }
     if let Some(name) = &drop_from_layout {
         let table: Vec<&Sig> = test.supplied.iter().filter(|s| s.is_out()).collect();
